@@ -651,7 +651,7 @@ impl<'a> Gen<'a> {
 
     fn filter(&mut self) -> FilterCall {
         let f = |n: &str, a: Vec<Expr>| FilterCall { name: n.to_string(), args: a };
-        match self.rng.below(30) {
+        match self.rng.below(48) {
             0 => f("upcase", vec![]),
             1 => f("downcase", vec![]),
             2 => f("capitalize", vec![]),
@@ -681,6 +681,31 @@ impl<'a> Gen<'a> {
             26 => f("newline_to_br", vec![]),
             27 => f("sort", vec![]),
             28 => f("date", vec![Expr::Str(["%Y-%m-%d", "%d %b %Y", "%H:%M"][self.rng.below(3)].into())]),
+            // the rest of the stdlib filter set (every filter a change might give a cache or a scratch buffer)
+            29 => f("ceil", vec![]),
+            30 => f("floor", vec![]),
+            31 => f("round", vec![Expr::Int(self.rng.range(0, 2))]),
+            32 => f("divided_by", vec![Expr::Int(self.rng.range(-2, 3))]),
+            33 => f("lstrip", vec![]),
+            34 => f("rstrip", vec![]),
+            35 => f("strip_html", vec![]),
+            36 => f("strip_newlines", vec![]),
+            37 => f("truncatewords", vec![Expr::Int(self.rng.range(1, 3))]),
+            38 => f("remove_first", vec![Expr::Str(["a", "b", " "][self.rng.below(3)].into())]),
+            39 => f("replace_first", vec![Expr::Str(["a", ",", " "][self.rng.below(3)].into()), Expr::Str(["é", "", "--"][self.rng.below(3)].into())]),
+            40 => f("escape_once", vec![]),
+            41 => f("url_decode", vec![]),
+            42 => f("map", vec![Expr::Str("k".into())]),
+            43 => {
+                if self.rng.chance(1, 2) {
+                    f("where", vec![Expr::Str("k".into())])
+                } else {
+                    f("where", vec![Expr::Str("k".into()), self.scalar_expr()])
+                }
+            }
+            44 => f("concat", vec![Expr::Var(["arr", "objs"][self.rng.below(2)].into())]),
+            45 => f("uniq", vec![]),
+            46 => f("sort_natural", vec![]),
             _ => f("compact", vec![]),
         }
     }
